@@ -46,6 +46,33 @@ Proof.
 Qed.
 Print Assumptions C09_bounded_wait.
 
+(* The same, read positively ("an initiator that keeps requesting is served after at most N-1 other grants"):
+   along any continuation of a reachable state during which k keeps requesting and the bus is released at least
+   N-1 times, k is the owner after some prefix of it. *)
+Theorem C09_served_within_N_minus_1_releases : forall c k is0 is,
+  (k < nintr c)%nat ->
+  (forall i, In i is -> req i k = true) ->
+  (nintr c - 1 <= releases c (state_after c 0 is0) is)%nat ->
+  exists t, (t <= length is)%nat /\ state_after c (state_after c 0 is0) (firstn t is) = k.
+Proof.
+  intros c k is0 is Hk Hr Hn. apply served_within; auto. apply grant_in_range; lia.
+Qed.
+Print Assumptions C09_served_within_N_minus_1_releases.
+
+(* Sharper, and per initiator: k is the owner before more than dist(owner, k) releases have happened, i.e. only the
+   initiators strictly between the current owner and k in cyclic order can be served before k, each at most once,
+   whatever anybody requests. *)
+Theorem C09_served_by_cyclic_distance : forall c k is0 is,
+  (k < nintr c)%nat ->
+  (forall i, In i is -> req i k = true) ->
+  (dist (nintr c) (state_after c 0 is0) k <= releases c (state_after c 0 is0) is)%nat ->
+  exists t, (t <= length is)%nat /\ state_after c (state_after c 0 is0) (firstn t is) = k /\
+            (releases c (state_after c 0 is0) (firstn t is) <= dist (nintr c) (state_after c 0 is0) k)%nat.
+Proof.
+  intros c k is0 is Hk Hr Hn. apply served_by_release; auto. apply grant_in_range; lia.
+Qed.
+Print Assumptions C09_served_by_cyclic_distance.
+
 (* ---- non-vacuity ---- *)
 Definition ft : feat :=
   {| f_err := false; f_rty := false; f_stall := false; f_lock := false; f_cti := false; f_bte := false |}.
@@ -65,4 +92,12 @@ Example C09_nonvacuous :
   never_granted cfg3 0 tr 2 = true /\ releases cfg3 0 tr = 1%nat /\ dist 3 0 2 = 2%nat /\
   state_after cfg3 0 tr = 1%nat /\
   state_after cfg3 0 (tr ++ [ {| in_i := [rq true; rq false; rq true]; in_b := rsp |} ]) = 2%nat.
+Proof. vm_compute. auto. Qed.
+
+(* the premises of the positive reading are met by that trace extended by one release: 2 = N-1 releases, and
+   initiator 2 owns the bus after 3 cycles *)
+Example C09_served_nonvacuous :
+  let tr3 := tr ++ [ {| in_i := [rq true; rq false; rq true]; in_b := rsp |} ] in
+  releases cfg3 0 tr3 = 2%nat /\ forallb (fun i => req i 2%nat) tr3 = true /\
+  state_after cfg3 0 (firstn 3 tr3) = 2%nat.
 Proof. vm_compute. auto. Qed.
